@@ -35,6 +35,7 @@ def run(ctx: Ctx):
     c02.check_or_idiom(ctx, ic)
     check_fresh_output(ctx, ic)
     check_accumulate(ctx, ic)
+    c03.check_mark_operands(ctx)
 
 
 def check_fresh_output(ctx: Ctx, ic):
